@@ -296,7 +296,34 @@ def generate_scripts(tier, seed):
          L("gc"), L("deref", 1), L("deref", 2)],
         [L("new", 1), L("reg", 1, 1), L("reg", 2, 1), L("drop", 1), L("gc"), L("jobs"), L("gc"), L("jobs")],
     ]
-    return fixed + good, r["states"], len(scripts)
+    return fixed + kept_alive_scripts() + good, r["states"], len(scripts)
+
+
+def kept_alive_scripts():
+    """Directed family for the KeptAlive list (the random walk of MCWeakRefs_gen rarely lines these up): a target that is
+    only weakly reachable is dereferenced in a turn whose kept-objects list already holds something else (another WeakRef was
+    constructed or dereferenced earlier in the same turn, in every order), a collection follows in the same turn, and the
+    reference is dereferenced again before and after the list is cleared.  WeakRefs.tla decides what may be printed."""
+    import itertools
+    L = lambda a, x=0, y=0, z=0: {"a": a, "x": x, "y": y, "z": z}
+    out = []
+    # (w2 created before the turn?, operations that put something on the kept-objects list)
+    pres = [(False, []), (False, [L("mkwr", 2, 2)]), (True, [L("deref", 2)]), (False, [L("mkwr", 2, 2), L("deref", 2)]),
+            (True, [L("deref", 2), L("deref", 2)]), (False, [L("new", 3), L("mkwr", 2, 3)]), (False, [L("new", 3), L("mkwr", 2, 3), L("drop", 3)])]
+    for w2_before, pre in pres:
+        has_w2 = w2_before or any(o["a"] == "mkwr" for o in pre)
+        uses_v3 = any(o["a"] == "new" for o in pre)
+        for turn_end in ("clear", "jobs"):
+            for early in (False, True):
+                for mid in ([L("gc")], [L("gc"), L("gc")], [L("new", 3), L("gc")]):
+                    if uses_v3 and len(mid) == 2 and mid[0]["a"] == "new":
+                        continue
+                    ops = [L("new", 1), L("new", 2), L("mkwr", 1, 1)] + ([L("mkwr", 2, 2)] if w2_before else []) + [L(turn_end), L("drop", 1)]
+                    ops += ([L("deref", 1)] + pre) if early else (pre + [L("deref", 1)])
+                    tail2 = [L("deref", 2)] if has_w2 else []
+                    ops += mid + [L("deref", 1)] + tail2 + [L(turn_end), L("gc"), L("deref", 1)] + tail2
+                    out.append(ops)
+    return out
 
 
 def validate(traces):
